@@ -99,8 +99,8 @@ CLAIMED = {
     ),
     "C12": dict(
         category="proof",
-        text="Relational (two-run) contracts, all batch sizes symbolic: the real function is executed on batch A and on batch B where sample b of B is sample a of A and all other samples of B (and the batch size) are arbitrary; proved: find_global_peaks_rough / find_global_peaks, SingleInstanceInferenceModel.forward and FindInstancePeaks.forward (both stride variants) report for that sample exactly the same points, values (and crop bounding box), and each run's output carries the frame_idx / video_idx (/centroid) tensors of its own batch unchanged. For find_local_peaks_rough / find_local_peaks the per-sample functional characterisation is proved instead: the rows are exactly the strict local maxima above threshold, each once, in increasing (sample,row,column,channel) order with their own sample/channel index -- so a sample's rows are a function of that sample's maps alone and empty samples contribute no rows without shifting the others.",
-        note="ASSUMED: the network maps each sample independently of its batch-mates in eval mode (ghost TableNet); torch.max/argmax return the first maximal index (torch documentation). Not decided: CentroidCrop.forward (per-sample split, top-k for max_instances, NaN padding, skipped empty samples), BottomUpInferenceModel / PAFScorer batch glue, _predict_generator metadata alignment, relational form of integral refinement.",
+        text="Relational (two-run) contracts, all batch sizes symbolic: the real function is executed on batch A and on batch B where sample b of B is sample a of A and all other samples of B (and the batch size) are arbitrary; proved: find_global_peaks_rough / find_global_peaks, SingleInstanceInferenceModel.forward and FindInstancePeaks.forward (both stride variants) report for that sample exactly the same points, values (and crop bounding box), and each run's output carries the frame_idx / video_idx (/centroid) tensors of its own batch unchanged. For find_local_peaks_rough / find_local_peaks the per-sample functional characterisation is proved instead: the rows are exactly the strict local maxima above threshold, each once, in increasing (sample,row,column,channel) order with their own sample/channel index -- so a sample's rows are a function of that sample's maps alone and empty samples contribute no rows without shifting the others. BOUNDED part: CentroidCrop.forward (return_crops=False) for a batch of 2 frames with 0..2(3) centroids each and max_instances in {None,1,2} (detector abstracted to its C06 characterisation; points, values, scales symbolic): each frame's rows are its OWN centroids scaled by its own eff_scale followed by NaN padding, none twice, and with max_instances set the kept ones are the highest-scoring; integral refinement of find_global_peaks relationally for a frame alone vs. one of two samples (1 channel, patch 3/5).",
+        note="ASSUMED: the network maps each sample independently of its batch-mates in eval mode (ghost TableNet); torch.max/argmax return the first maximal index (torch documentation). Not decided: CentroidCrop with return_crops=True (_generate_crops: crops carrying the indices of their frame, skipped all-NaN samples) and use_gt_centroids, PAFScorer batch glue (BottomUpInferenceModel's per-sample split is decided under C03), _predict_generator metadata alignment.",
         technique="contract-based deductive verification: relational two-run symbolic execution of the real Python source, VCs discharged by z3 (cvc5 for unknowns)",
         design="3/C12",
     ),
